@@ -200,3 +200,67 @@ Proof. vm_compute. reflexivity. Qed.
 Example C14_ex_print_raises :
   execute_print (Some (fun n : nat => nth n [VBool true; VErr 7; VErr 8] VNull)) (seq 0 3) = PRaise 7.
 Proof. vm_compute. reflexivity. Qed.
+
+(* ---- tie by translation: the SOURCE of the selection loop of query_execute.execute_print and of the
+   `return ast.Select(...)` tails of compiler.transform_balances / transform_journal, translated into PyMini on every
+   run (Gen/SrcLedgerPrint.v), computes the model's [execute_print] and the Select the model's transformations build
+   from the parsed template.  c_print / balances / journal are the receivers (their attributes are the fields);
+   [where_ok]: c_print.where is None, or an opaque callable returning the model's value of the FROM expression on a
+   row (an error value is raised); a row is an object whose `entry` attribute is the entry. ---- *)
+From Verif Require Import Model.PyMini Model.PrimsLedger Gen.SrcLedgerPrint Proofs.SrcLedgerPrint.
+
+Theorem C14_source_print_selection : forall (call_ref : nat -> list pv -> pv) (ext : string -> list pv -> PyMini.res pv)
+    (E : Type) (enc : E -> pv) (w : option (E -> value)) (wv : pv) (es : list E),
+  where_ok call_ref E enc w wv ->
+  let flds := [("where", wv); ("table", PList (map (prow E enc) es))]%string in
+  call_method call_ref (prims_ledger SrcLedgerPrint.refs ext) src_print_selection flds [] =
+  match Statements.execute_print w es with
+  | Statements.POk l => Ok (flds, PList (map enc l))
+  | Statements.PRaise k => Exc k
+  end.
+Proof. exact print_selection_src. Qed.
+Print Assumptions C14_source_print_selection.
+
+Theorem C14_source_transform_balances : forall (call_ref : nat -> list pv -> pv)
+    (ext : string -> list pv -> PyMini.res pv) (b : Statements.balances) (cooked : Statements.select),
+  call_method call_ref (prims_ledger SrcLedgerPrint.refs ext) src_transform_balances (Stm.balances_fields b)
+              [Stm.enc_select cooked] =
+  Ok (Stm.balances_fields b,
+      Stm.enc_select (Statements.mkSelect (Statements.s_targets cooked) (Statements.b_from b) (Statements.b_where b)
+                        (Statements.s_group_by cooked) (Statements.s_order_by cooked) None None false)).
+Proof. exact transform_balances_src. Qed.
+Print Assumptions C14_source_transform_balances.
+
+Theorem C14_source_transform_journal : forall (call_ref : nat -> list pv -> pv)
+    (ext : string -> list pv -> PyMini.res pv) (j : Statements.journal) (cooked : Statements.select),
+  call_method call_ref (prims_ledger SrcLedgerPrint.refs ext) src_transform_journal (Stm.journal_fields j)
+              [Stm.enc_select cooked] =
+  Ok (Stm.journal_fields j,
+      Stm.enc_select (Statements.mkSelect (Statements.s_targets cooked) (Statements.j_from j)
+                        (if Statements.nonempty (Statements.j_account j)
+                         then Some (Statements.account_match (Statements.or_empty (Statements.j_account j))) else None)
+                        None None None None false)).
+Proof. exact transform_journal_src. Qed.
+Print Assumptions C14_source_transform_journal.
+
+(* the dataclass fields of the imported parser AST classes (generated) are those the constructor primitives use *)
+Theorem C14_source_ast_fields : SrcLedgerPrint.ast_decls = PrimsLedger.ast_decls.
+Proof. exact ast_decls_tie. Qed.
+Print Assumptions C14_source_ast_fields.
+
+(* the hypothesis is satisfiable: entries are numbers, the expression keeps the even ones and raises on 7 *)
+Example C14_source_print_example :
+  let enc := fun n : Z => PInt n in
+  let f := fun n : Z => if n =? 7 then VErr 5 else VBool (Z.even n) in
+  let call_ref := fun (k : nat) (args : list pv) =>
+    match args with
+    | [PTuple [_; PList [PTuple [_; PV (VInt n)]]]] => PV (f n)
+    | _ => PNone
+    end in
+  where_ok call_ref Z enc (Some f) (PRef 0) /\
+  call_method call_ref (prims_ledger SrcLedgerPrint.refs (fun _ _ => Stuck)) src_print_selection
+    [("where", PRef 0); ("table", PList (map (prow Z enc) [1; 2; 3; 4]))]%string []
+  = Ok ([("where", PRef 0); ("table", PList (map (prow Z enc) [1; 2; 3; 4]))]%string, PList [PInt 2; PInt 4]) /\
+  call_method call_ref (prims_ledger SrcLedgerPrint.refs (fun _ _ => Stuck)) src_print_selection
+    [("where", PRef 0); ("table", PList (map (prow Z enc) [2; 7; 4]))]%string [] = Exc 5.
+Proof. split; [exists 0%nat; split; [reflexivity|intros e; reflexivity]|split; vm_compute; reflexivity]. Qed.
